@@ -10,7 +10,9 @@ import (
 	"fmt"
 	"math"
 	"os"
+	"runtime"
 	"strconv"
+	"sync"
 	"time"
 )
 
@@ -22,6 +24,9 @@ type vReplayFile struct {
 var vReplay *vReplayFile
 var vSeen = map[string]int{}
 var vFailed []string
+var vEvalMu sync.Mutex
+var vEvaluated = map[string]bool{}
+var vEvalOrder []string
 var vKnownHit []string
 var vReached []string
 
@@ -130,6 +135,12 @@ func vAssume(c bool) {
 }
 
 func vAssert(id string, c bool) {
+	vEvalMu.Lock()
+	defer vEvalMu.Unlock()
+	if !vEvaluated[id] {
+		vEvaluated[id] = true
+		vEvalOrder = append(vEvalOrder, id)
+	}
 	if !c {
 		vFailed = append(vFailed, id)
 	}
@@ -151,7 +162,26 @@ func vKnownFor(id string, c bool, asserts string) {
 func vReach(id string)                    { vReached = append(vReached, id) }
 func vObserve(name string, v interface{}) {}
 func vSymbolic() bool                     { return false }
-func vBlockedGoroutines() int             { return -1 }
+
+// vBaseGoroutines is the goroutine count when the harness starts (set by the replay test).
+var vBaseGoroutines = -1
+
+// vBlockedGoroutines (native): goroutines that exist beyond those present when the
+// harness started, after giving them up to 3 s to finish.
+func vBlockedGoroutines() int {
+	if vBaseGoroutines < 0 {
+		return -1
+	}
+	n := 0
+	for i := 0; i < 300; i++ {
+		n = runtime.NumGoroutine() - vBaseGoroutines
+		if n <= 0 {
+			return 0
+		}
+		time.Sleep(10 * time.Millisecond)
+	}
+	return n
+}
 func vYield()                             { time.Sleep(time.Millisecond) }
 func vNote(s string)                      {}
 
